@@ -355,6 +355,26 @@ def run(spec, hang_ok=False):
                     do_cancel({'how': wspec.get('how', 'future.cancel'), 'target': wspec.get('target', 0)})
                 if wspec.get('action') == 'pause':
                     action = 'pause'
+                elif wspec.get('action') == 'let_start':
+                    # the thread that reached the line (a canceller inside cancel()) is held while everything parked under
+                    # ``release_prefix`` is let go and the transfer ``until_label`` gets as far as beginning a request (or the
+                    # bounded wait runs out); other gates stay shut meanwhile (gate option hold_while_paused)
+                    def action(wspec=wspec):
+                        end = time.monotonic() + wspec.get('action_wait', 1.5)
+                        pref = wspec.get('release_prefix', 't0/')
+                        lab = wspec.get('until_label', 't1')
+                        while time.monotonic() < end:
+                            for kp in d.parked_keys():
+                                if kp[0].startswith(pref):
+                                    try:
+                                        d.release(kp)
+                                    except KeyError:
+                                        pass
+                            if any(kp[0].startswith(lab + '/s3:') for kp in d.parked_keys()):
+                                log.add('window.let_start', reached=True)
+                                return
+                            time.sleep(0.0005)
+                        log.add('window.let_start', reached=False)
                 windows.append({'file': wspec['file'], 'line': line + wspec.get('line_offset', 0), 'nth': wspec.get('nth', 0),
                                 'action': action, 'name': wspec.get('name') or str(wspec.get('text', ''))[:40], 'wait': wspec.get('wait', 0.3)})
         obs.injector = yieldinj.Injector(p=ycfg.get('p', 0.0), seed=spec.get('seed', 0), windows=windows,
@@ -468,6 +488,28 @@ def _drive(obs, mgr, xfers, spec, mode, do_cancel):
     cp = (spec.get('plan') or {}).get('cancel')
     th = threading.Thread(target=submit_all, name='vf-submit', daemon=True)
     th.start()
+    if spec.get('poll_done'):
+        # a user thread that keeps asking future.done(): the moment it first sees True is logged ('done.seen'); whatever the
+        # transfer reports in the end must not stem from something that happened only after that
+        stop_poll = obs.stop_poll = threading.Event()
+
+        def poll_done():
+            seen = set()
+            with watchdog.polling():
+                while not stop_poll.is_set() and len(seen) < len(xfers):
+                    for x in xfers:
+                        f = x.future
+                        if f is not None and x.label not in seen:
+                            try:
+                                d = f.done()
+                            except Exception:  # noqa
+                                d = False
+                            if d:
+                                seen.add(x.label)
+                                log.add('done.seen', label=x.label)
+                    time.sleep(0.0002)
+
+        threading.Thread(target=poll_done, name='vf-done-poller', daemon=True).start()
 
     def start_results():
         obl = []
@@ -831,6 +873,8 @@ def _record_outcomes(xfers):
 
 
 def cleanup(obs):
+    if getattr(obs, 'stop_poll', None) is not None:
+        obs.stop_poll.set()
     if getattr(obs, 'dirwatch', None) is not None:
         obs.dirwatch.close()
     shutil.rmtree(obs.tmpdir, ignore_errors=True)
